@@ -109,21 +109,28 @@ pub struct C04;
 
 pub fn check_c04(ctx: &RunCtx, out: &mut Outcome) {
     let tr = &ctx.trace;
-    if let Some(h) = &tr.hang {
-        out.violate("progress", "hang", format!("bounded progress failed: {}", h));
-        return;
-    }
-    let doc = match tr.result_json() {
-        Some(d) => d,
+    // the ordering invariants are judged on whatever happened, also when the run later hung or aborted
+    let doc = tr.result_json();
+    let rg = match &doc {
+        Some(d) => result_groups(d),
         None => {
-            out.violate("progress", "no_result", format!("run produced no result document: exit={:?} stderr={}", tr.code(), tr.stderr_str()));
-            return;
+            // no document: the targets that took part are those monorail asked to spawn
+            ctx.commands
+                .iter()
+                .map(|c| {
+                    let mut m = std::collections::BTreeMap::new();
+                    for (_, sc, st) in tr.spawn_reqs.iter().filter(|r| r.1 == *c) {
+                        let _ = sc;
+                        m.insert(st.clone(), PairResult { status: String::new(), code: None });
+                    }
+                    (c.clone(), vec![m])
+                })
+                .collect()
         }
     };
-    let rg = result_groups(&doc);
     // (c) documented command order
     let got: Vec<String> = rg.iter().map(|r| r.0.clone()).collect();
-    if got != ctx.commands {
+    if doc.is_some() && got != ctx.commands {
         out.violate("command_order", "results_order", format!("results[] lists commands {:?}, documented order is {:?}", got, ctx.commands));
     }
     let cmd_index = |c: &str, after: usize| -> Option<usize> { ctx.commands.iter().enumerate().position(|(i, x)| i >= after && x == c) };
@@ -165,6 +172,14 @@ pub fn check_c04(ctx: &RunCtx, out: &mut Outcome) {
                 out.violate("dep_before_dependent", "dependency_not_finished", format!("'{}' for '{}' was requested (event {}) while its dependency '{}' {}", c, t, seq, u, state));
             }
         }
+    }
+    if let Some(h) = &tr.hang {
+        out.violate("progress", "hang", format!("bounded progress failed: {}", h));
+        return;
+    }
+    if doc.is_none() {
+        out.violate("progress", "no_result", format!("run produced no result document: exit={:?} stderr={}", tr.code(), tr.stderr_str()));
+        return;
     }
     if tr.code() != Some(0) {
         out.violate("progress", "exit_status", format!("all children exited 0 but run exited {:?}: {}", tr.code(), tr.stderr_str()));
@@ -250,7 +265,18 @@ impl Property for C04 {
         exec_with(v, check_c04)
     }
     fn shrink(&self, v: &Value) -> Vec<Value> {
-        from_val(v).map(|s| shrink_run_scenario(&s).iter().map(to_val).collect()).unwrap_or_default()
+        from_val(v)
+            .map(|s| {
+                shrink_run_scenario(&s)
+                    .iter()
+                    .map(|c| {
+                        let mut x = to_val(c);
+                        x["with_listener"] = v["with_listener"].clone();
+                        x
+                    })
+                    .collect()
+            })
+            .unwrap_or_default()
     }
     fn rule(&self) -> String {
         "seeded worlds (2-10 targets, thorough up to 24; nesting, uses, 1-3 commands, sequences; selection all/changed/-t --deps) x seeded schedule strategy (plan order, reverse, dependencies-last, uniform, hold-monorail, straggler); every child exits 0. Invariants on controller event sequence numbers: dependency told to exit before dependent's spawn is requested; command barrier; documented command order; bounded progress. Non-trivial = the run has >= 2 groups with an R-dep edge across them and >= 1 scheduling decision that differs from plan order; distinct = hash of (targets+uses, group shape, strategy, trace length)".into()
@@ -301,10 +327,19 @@ fn gen_c16(seed: u64, idx: usize, tier: Tier) -> RunScenario {
     let mut cmd_files = vec![];
     for t in &targets {
         for c in &cmds {
-            cmd_files.push(CmdFile { target: t.path.clone(), command: c.to_string(), rel: WorldSpec::default_cmd_rel(&t.path, c), exec: true });
+            cmd_files.push(CmdFile { target: t.path.clone(), command: c.to_string(), rel: WorldSpec::default_cmd_rel(&t.path, c), exec: true, broken: false });
         }
     }
-    let spec = WorldSpec { targets, cmd_files, files: vec![], sequences: vec![], max_retained_runs: 2, gitignore: vec![], git: true };
+    // one scenario in eight: every member gets an argument list larger than a pipe buffer (64 KiB)
+    let mut files = vec![];
+    if rng.chance(1, 8) {
+        let args: Vec<String> = (0..2600).map(|i| format!("--option-number-{:05}=value", i)).collect();
+        let body = serde_json::json!({ cmds[cmds.len() - 1]: args }).to_string();
+        for t in &targets {
+            files.push((format!("{}/monorail/argmap/base.json", t.path), body.clone()));
+        }
+    }
+    let spec = WorldSpec { targets, cmd_files, files, sequences: vec![], max_retained_runs: 2, gitignore: vec![], git: true };
     let opts = RunOpts { commands: cmds.iter().map(|s| s.to_string()).collect(), ..Default::default() };
     let mut script = RunScript::simple(opts);
     script.strategy = *rng.pick(&[Strategy::PlanOrder, Strategy::Reverse, Strategy::Uniform, Strategy::Straggler]);
@@ -362,13 +397,37 @@ impl Property for C16 {
         }
     }
     fn generate(&self, seed: u64, idx: usize, tier: Tier) -> Value {
-        to_val(&gen_c16(seed, idx, tier))
+        let mut v = to_val(&gen_c16(seed, idx, tier));
+        // one scenario in four runs with a `log tail` listener attached (members then also stream to it)
+        let mut rng = Rng::new(scenario_seed(seed, "C16l", idx));
+        v["with_listener"] = json!(rng.chance(1, 4));
+        v
     }
     fn execute(&self, v: &Value) -> Outcome {
-        let mut o = exec_with(v, check_c16);
+        let mut o = if v["with_listener"] == true {
+            match from_val(v) {
+                Err(e) => Outcome::skip(&e),
+                Ok(sc) => {
+                    let cfg = crate::props_listen::ListenerCfg { stdout: true, stderr: true, targets: vec![], commands: vec![] };
+                    let mut slot = None;
+                    match crate::props_listen::execute_run_l(&sc, Some(&cfg), &mut slot) {
+                        Err(r) => Outcome::skip(&r),
+                        Ok((ctx, _)) => {
+                            let mut out = Outcome::default();
+                            base_trace(&ctx, &mut out);
+                            out.fault("listener_attached_to_a_rendezvous_group", 1);
+                            check_c16(&ctx, &mut out);
+                            out
+                        }
+                    }
+                }
+            }
+        } else {
+            exec_with(v, check_c16)
+        };
         if let Ok(sc) = from_val(v) {
             let wide = sc.spec.targets.iter().filter(|t| t.path.starts_with('w')).count();
-            o.signature = format!("wide={} n={} cmds={:?} strat={:?} workers={:?}", wide, sc.spec.targets.len(), sc.script.opts.commands, sc.script.strategy, sc.script.workers);
+            o.signature = format!("wide={} n={} cmds={:?} strat={:?} workers={:?} l={} bigargs={}", wide, sc.spec.targets.len(), sc.script.opts.commands, sc.script.strategy, sc.script.workers, v["with_listener"], !sc.spec.files.is_empty());
         }
         o
     }
@@ -395,6 +454,29 @@ impl Property for C16 {
 pub struct C05;
 
 fn gen_c05(seed: u64, idx: usize, _tier: Tier) -> RunScenario {
+    let mut sc = gen_c05_base(seed, idx);
+    let mut rng = Rng::new(scenario_seed(seed, "C05x", idx));
+    match rng.below(30) {
+        0 => {
+            // an explicit but blank target list names no target: nothing may run
+            sc.mode = Mode::Named;
+            sc.script.opts.targets = vec![String::new()];
+            sc.script.opts.deps = rng.chance(1, 2);
+        }
+        1 => {
+            // one command file has the x bit but cannot be executed (its interpreter does not exist)
+            let cands: Vec<usize> = (0..sc.spec.cmd_files.len()).filter(|&i| sc.spec.cmd_files[i].exec && !sc.spec.cmd_files[i].command.ends_with("__decoy")).collect();
+            if !cands.is_empty() {
+                let i = cands[rng.below(cands.len())];
+                sc.spec.cmd_files[i].broken = true;
+            }
+        }
+        _ => {}
+    }
+    sc
+}
+
+fn gen_c05_base(seed: u64, idx: usize) -> RunScenario {
     let mut rng = Rng::new(scenario_seed(seed, "C05", idx));
     let p = GenParams {
         max_t: 9,
@@ -418,6 +500,14 @@ pub fn check_c05(ctx: &RunCtx, out: &mut Outcome) {
     let tr = &ctx.trace;
     let spec = &ctx.sc.spec;
     let named = ctx.sc.mode == Mode::Named;
+    if named && ctx.sc.script.opts.targets.iter().all(|t| t.trim().is_empty()) {
+        // -t was given and names nothing that exists: exactly the named targets = none
+        out.nontrivial = true;
+        if !tr.helpers.is_empty() || !tr.unknown_starts.is_empty() {
+            out.violate("named_exact", "blank_target_list_ran_targets", format!("run -t '' started {:?}: an explicit target list that names no target must not fall back to the changed/all targets", tr.helpers.iter().map(|h| format!("{}:{}", h.command, h.target)).collect::<Vec<_>>()));
+        }
+        return;
+    }
     // (5) run and analyze agree on acceptance (changed / all mode)
     let run_graph_err = tr.exit.as_ref().map(|e| {
         let s = String::from_utf8_lossy(&e.stderr);
@@ -442,9 +532,16 @@ pub fn check_c05(ctx: &RunCtx, out: &mut Outcome) {
         out.skipped = Some("run_hung(other property)".into());
         return;
     }
+    let has_broken = spec.cmd_files.iter().any(|c| c.broken);
     let doc = match tr.result_json() {
         Some(d) => d,
         None => {
+            if has_broken {
+                // an executable that cannot be spawned aborts the run without a document: nothing to judge
+                out.fault("command_file_that_cannot_be_spawned", 1);
+                out.skipped = Some("run_aborted_on_unspawnable_command(no document)".into());
+                return;
+            }
             out.advisories.push(format!("no result document: {}", tr.stderr_str()));
             out.skipped = Some("no_result_document(other property)".into());
             return;
@@ -560,7 +657,8 @@ pub fn check_c05(ctx: &RunCtx, out: &mut Outcome) {
                 let n = starts.get(&(c.clone(), t.clone())).cloned().unwrap_or(0);
                 match definition(spec, c, t) {
                     Def::Defined => {
-                        if n == 0 {
+                        let broken = spec.cmd_files.iter().any(|f| f.broken && f.command == *c && f.target == *t);
+                        if n == 0 && !broken && !has_broken {
                             out.violate("started_once", "defined_not_started", format!("'{}' is defined for '{}' and nothing failed, but no process was started (status {})", c, t, r.status));
                         }
                     }
@@ -636,7 +734,8 @@ fn gen_c06(seed: u64, idx: usize, _tier: Tier) -> RunScenario {
     let mut behav = behav_exit0_all(&spec, &mut rng, 2);
     if !fault_free && !behav.is_empty() {
         let nf = rng.below(4);
-        let codes = [1, 1, 2, 3, 126, 127, 128, 255, 7, 42];
+        // negative = killed by that signal (SIGKILL, SIGTERM, SIGSEGV): no exit code at all
+        let codes = [1, 1, 2, 3, 126, 127, 128, 255, 7, 42, -9, -15, -11];
         // bias: several failures for the same command (often the same group)
         let c0 = behav[rng.below(behav.len())].command.clone();
         for _ in 0..nf {
@@ -746,9 +845,10 @@ pub fn check_c06(ctx: &RunCtx, out: &mut Outcome) {
                             }
                         }
                         (Some(h), None) => {
-                            // code-less error: only for members overtaken by a sibling's failure
+                            // code-less error: a process killed by a signal, or a member overtaken by a sibling's failure
                             let other_failure = failing_children.iter().any(|f| f.target != *t);
-                            if !other_failure {
+                            let by_signal = h.exit_code.map(|k| k < 0).unwrap_or(false);
+                            if !other_failure && !by_signal {
                                 out.violate("status_truthful", "codeless_error_alone", format!("'{}' for '{}' reported error without a code although no other member of its group failed (process exit {:?})", c, t, h.exit_code));
                             }
                         }
@@ -782,7 +882,7 @@ pub fn check_c06(ctx: &RunCtx, out: &mut Outcome) {
                 // failing child must carry its code unless another sibling failed too
                 if let Some(h) = hs.first() {
                     if let Some(k) = h.exit_code {
-                        if k != 0 && !(r.status == "error" && (r.code == Some(k as i64) || (r.code.is_none() && failing_children.len() > 1))) {
+                        if k != 0 && !(r.status == "error" && (r.code == Some(k as i64) || (r.code.is_none() && (failing_children.len() > 1 || k < 0)))) {
                             out.violate("status_truthful", "failure_not_reported", format!("'{}' for '{}' exited {} but is reported {} {:?}", c, t, k, r.status, r.code));
                         }
                     }
@@ -949,30 +1049,30 @@ fn gen_c11(seed: u64, idx: usize, _tier: Tier) -> (RunScenario, C11Extra) {
                 0 => {
                     // undefined; sometimes with a near miss whose stem is `<command>.alt`
                     if rng.chance(1, 2) {
-                        cmd_files.push(CmdFile { target: path.clone(), command: format!("{}__decoy", c), rel: format!("{}/{}.alt.sh", cdir, c), exec: true });
+                        cmd_files.push(CmdFile { target: path.clone(), command: format!("{}__decoy", c), rel: format!("{}/{}.alt.sh", cdir, c), exec: true, broken: false });
                     }
                 }
                 1 | 2 => {
                     // explicit definition path, inside or outside the target
                     let rel = if rng.chance(1, 2) { format!("{}/tools/{}-impl", path, c) } else { format!("tools/{}-{}.bin", c, i) };
                     t.defs.push((c.clone(), rel.clone()));
-                    cmd_files.push(CmdFile { target: path.clone(), command: c.clone(), rel, exec: true });
+                    cmd_files.push(CmdFile { target: path.clone(), command: c.clone(), rel, exec: true, broken: false });
                     // a decoy in the command directory that must NOT be used
                     if rng.chance(1, 2) {
-                        cmd_files.push(CmdFile { target: path.clone(), command: format!("{}__decoy", c), rel: format!("{}/{}.sh", cdir, c), exec: true });
+                        cmd_files.push(CmdFile { target: path.clone(), command: format!("{}__decoy", c), rel: format!("{}/{}.sh", cdir, c), exec: true, broken: false });
                     }
                 }
                 3 => {
                     // definition with empty path: falls back to stem search
                     t.defs.push((c.clone(), String::new()));
                     let ext = *rng.pick(&["sh", "py", "awk"]);
-                    cmd_files.push(CmdFile { target: path.clone(), command: c.clone(), rel: format!("{}/{}.{}", cdir, c, ext), exec: true });
+                    cmd_files.push(CmdFile { target: path.clone(), command: c.clone(), rel: format!("{}/{}.{}", cdir, c, ext), exec: true, broken: false });
                 }
                 _ => {
                     // an extension-less file `lint.fix` has the stem `lint`: it would not define `lint.fix`
                     let ext = if c.contains('.') { *rng.pick(&["sh", "py", "rb"]) } else { *rng.pick(&["sh", "py", "rb", ""]) };
                     let rel = if ext.is_empty() { format!("{}/{}", cdir, c) } else { format!("{}/{}.{}", cdir, c, ext) };
-                    cmd_files.push(CmdFile { target: path.clone(), command: c.clone(), rel, exec: true });
+                    cmd_files.push(CmdFile { target: path.clone(), command: c.clone(), rel, exec: true, broken: false });
                 }
             }
         }
